@@ -36,6 +36,8 @@ func cursorParamIndex(sig *types.Signature) int {
 
 func runC19(c *eng.Ctx) {
 	P := c.P
+	// (0) a listing asks the store the children were written to
+	storeChoice(c, "SIB-store-choice")
 	// (1) CURSOR
 	nLoopCalls := cursorAdvances(c, "CURSOR-pagination", nil)
 	// the generic prefix filter hands the caller's (start name, inclusive) pair to the store for the first page: when it
